@@ -298,7 +298,7 @@ pub fn run(ctx: &Ctx) -> Report {
          roles Client/Server/Any, v3.1.1/v5.0/undetermined. Oracle: no panic, every recv call advances, bounded event lists, every complete frame delivered/reported/duplicate, reusable after close. \
          non-trivial = reached Connected and saw >= 1 hostile/boundary frame afterwards",
     );
-    let n = ctx.tier.pick(150_000, 2_000_000);
+    let n = ctx.tier.pick(400_000, 2_000_000);
     let (st, v) = search(ctx, "c05.history", n, || history(profile(), true, hostile_op()), test);
     rep.absorb("histories", st, v, false);
     rep.assumptions.push("the application respects the documented contract (ids from acquire/register, timers fired only when armed)".into());
